@@ -15,12 +15,21 @@ import (
 type GateVault struct {
 	storage.Vault
 	w *World
+	// recovered: the store's own recovery pass (storage.Recovery, "must do some recovery operation before it can be used
+	// after a failure") has been asked for and has returned; usedBefore names the first operation that came earlier.
+	recovered  bool
+	usedBefore string
 }
 
 func NewGateVault(w *World, inner storage.Vault) *GateVault { return &GateVault{Vault: inner, w: w} }
 
 func (v *GateVault) gate(kind, path, detail string) *Gate {
 	w := v.w
+	w.mu.Lock()
+	if !v.recovered && v.usedBefore == "" && kind != "C" {
+		v.usedBefore = kind + " " + path
+	}
+	w.mu.Unlock()
 	frames := engineFrames(3)
 	w.mu.Lock()
 	thread, site := w.threadFor(path, frames)
@@ -194,8 +203,19 @@ func (v *GateVault) Close(ctx context.Context) error { return v.Vault.Close(ctx)
 
 // Recovery forwards to the inner vault when it implements storage.Recovery.
 func (v *GateVault) Recovery(ctx context.Context) error {
+	var err error
 	if r, ok := v.Vault.(storage.Recovery); ok {
-		return r.Recovery(ctx)
+		err = r.Recovery(ctx)
 	}
-	return nil
+	v.w.mu.Lock()
+	v.recovered = true
+	v.w.mu.Unlock()
+	return err
+}
+
+// UsedBeforeRecovery names the first storage operation the engine issued before it had run the store's recovery pass ("" = none).
+func (v *GateVault) UsedBeforeRecovery() string {
+	v.w.mu.Lock()
+	defer v.w.mu.Unlock()
+	return v.usedBefore
 }
